@@ -32,14 +32,23 @@ DESC = {
 }
 rows = {}
 for line in LOG.read_text().splitlines() if LOG.exists() else []:
-    m = re.match(r"/tmp/seed_(C\d\d)/([AB]) demo without patch: exit (\d+) ; with patch: exit (\d+) ; suite with patch: (.*)", line)
+    m = re.match(r"(/tmp/seed2?_(C\d\d)/([ABCD])) demo without patch: exit (\d+) ; with patch: exit (\d+) ; suite with patch: (.*)", line)
     if m:
-        rows[f"{m.group(1)}-{m.group(2)}"] = (int(m.group(3)), int(m.group(4)), m.group(5))
+        rows[f"{m.group(2)}-{m.group(3)}"] = (int(m.group(4)), int(m.group(5)), m.group(6), m.group(1))
 extra = json.loads(pathlib.Path("/root/work/seed_desc_extra.json").read_text()) if pathlib.Path("/root/work/seed_desc_extra.json").exists() else {}
 DESC.update({k: tuple(v) for k, v in extra.items()})
-for sid, (a, b, suite) in sorted(rows.items()):
+def from_notes(src):
+    """Description of a change from the agent's own notes: its heading and its 'needs to manifest' sentence."""
+    txt = (src / "notes.md").read_text()
+    head = next((l.strip("# ").strip() for l in txt.splitlines() if l.strip()), "")
+    head = re.sub(r"^(C\d\d\s*/\s*)?[Cc]hange [A-D]\s*[-:–—]*\s*", "", head)
+    m = re.search(r"[Nn]eeds to manifest\W*(.{10,400}?)(?:\n\s*[-*]|\n\n|$)", txt, re.S)
+    return head[:300], (re.sub(r"\s+", " ", m.group(1)).strip()[:300] if m else "")
+
+
+for sid, (a, b, suite, srcdir) in sorted(rows.items()):
     prop, ab = sid.split("-")
-    src = pathlib.Path(f"/tmp/seed_{prop}/{ab}")
+    src = pathlib.Path(srcdir)
     ok = a == 0 and b != 0 and "4087 passed" in suite and not re.search(r"(?<![a-z])\d+ failed", suite) and " error" not in suite
     if not ok:
         print("NOT CONFIRMED", sid, a, b, suite)
@@ -49,6 +58,8 @@ for sid, (a, b, suite) in sorted(rows.items()):
     for f in ("patch.diff", "demo.py", "notes.md"):
         shutil.copy(src / f, dst / f)
     what, needs = DESC.get(sid, ("", ""))
+    if not what:
+        what, needs = from_notes(src)
     old = json.loads((dst / "meta.json").read_text()) if (dst / "meta.json").exists() else {}
     meta = {"id": sid, "property": prop, "breaks": what or old.get("breaks", ""), "needs_to_manifest": needs or old.get("needs_to_manifest", ""),
             "origin": "independent sub-agent given only the property text and a scratch worktree",
